@@ -11,6 +11,25 @@ from .model import Contract, Loop
 from . import solve
 
 
+def mutated_global_names(fdef):
+    """Names a function mutates in place (receiver of a mutating list method, subscript store) or
+    declares `global`, and never binds as a plain local: candidates for module globals."""
+    bound, mutated, declared = set(), set(), set()
+    for a in fdef.args.args + fdef.args.kwonlyargs:
+        bound.add(a.arg)
+    for n in ast.walk(fdef):
+        if isinstance(n, ast.Global):
+            declared |= set(n.names)
+        elif isinstance(n, ast.Name) and isinstance(n.ctx, ast.Store):
+            bound.add(n.id)
+        elif isinstance(n, ast.Call) and isinstance(n.func, ast.Attribute) and isinstance(n.func.value, ast.Name) \
+                and n.func.attr in ('append', 'pop', 'remove', 'extend', 'insert', 'clear', 'update', 'sort', 'reverse'):
+            mutated.add(n.func.value.id)
+        elif isinstance(n, (ast.Subscript,)) and isinstance(n.ctx, (ast.Store, ast.Del)) and isinstance(n.value, ast.Name):
+            mutated.add(n.value.id)
+    return frozenset((mutated - bound) | declared)
+
+
 def clause(e):
     """A contract clause is an expression string or (expression, [property ids])."""
     if isinstance(e, tuple):
@@ -744,6 +763,12 @@ class Executor(ExprMixin, StmtMixin, Engine):
         # 3. havoc + postcondition
         rebinds = self.havoc_modifies(st, c, args, node)
         res = self.fresh_val(st, c.returns, 'r_' + cname.replace('.', '_')) if not isinstance(c.returns, TNone) else NONE_VAL
+        # a returned reference denotes an existing object (allocated before or by the callee)
+        if isinstance(c.returns, TRef):
+            st.assume(z3.And(res.e >= 0, res.e < st.alloc))
+        elif isinstance(c.returns, TOpt) and isinstance(c.returns.elem, TRef):
+            rv = opt_val(res)
+            st.assume(z3.Or(opt_is_none(res), z3.And(rv.e >= 0, rv.e < st.alloc)))
         extra = dict(args)
         extra['result'] = res
         for pn, nv in rebinds.items():
@@ -879,11 +904,14 @@ class Executor(ExprMixin, StmtMixin, Engine):
         self.local_types = c.body_types
         self.cur_fn_stack.append(c.key)
         self.inline_depth += 1
+        saved_mut = getattr(self, 'mutated_globals', frozenset())
+        self.mutated_globals = mutated_global_names(fdef)
         try:
             results = list(self.exec_block(fdef.body, st))
         finally:
             self.inline_depth -= 1
             self.cur_fn_stack.pop()
+            self.mutated_globals = saved_mut
             self.cur_module, self.cur_class, self.local_types = saved
         for s1, out in results:
             if s1.dead:
@@ -1026,6 +1054,7 @@ class Executor(ExprMixin, StmtMixin, Engine):
         self.cur_class = qual[0] if len(qual) > 1 else None
         self.local_types = c.body_types
         self.cur_fn_stack = [key]
+        self.mutated_globals = mutated_global_names(fdef)
         self.concat_axioms = bool(getattr(c, 'options', {}).get('concat_axioms'))
         st = self.initial_state(c)
         # class-typed first parameter of classmethods
